@@ -273,6 +273,8 @@ class CFG:
                 caught = False
                 for i, (h, hentry) in enumerate(fr["handlers"]):
                     for hn in handler_names(h):
+                        if cls.startswith("_InlineReturn__") and hn != cls:
+                            continue      # the jump of an inlined `return`: only its own synthetic handler receives it
                         if self.hier.is_sub(cls, hn):
                             cur.add(lab, hentry)
                             fr["arrived"][i].add(cls)
